@@ -58,6 +58,11 @@ def generate(ctx):
     text, facts = gen_nglob.generate()
     ctx.write_gen("GenNglob.v", text)
     ctx.facts = facts
+    # statement-by-statement translation of the small functions (tied by proofs/NglobCodeTie.v)
+    from translator import gen_nglob_code
+    code_text, code_facts = gen_nglob_code.generate()
+    ctx.write_gen("GenNglobCode.v", code_text)
+    ctx.stats["translated_functions"] = code_facts["translated_functions"]
     ctx.stats["fingerprinted_functions"] = len(facts["fingerprints"])
     ctx.stats["wild_parts"] = len(facts["wild_parts"])
 
